@@ -7,7 +7,7 @@ Multi-simplices are not allowed.
 
 """
 
-from collections.abc import Hashable, Iterable
+from collections.abc import Hashable, Iterable, Iterator
 from copy import copy, deepcopy
 from itertools import combinations, count
 from warnings import warn
@@ -482,6 +482,8 @@ class SimplicialComplex(Hypergraph):
             faces = []  # container to store subfaces
             try:
                 for idx, members in ebunch_to_add.items():
+                    if isinstance(members, Iterator):  # one-shot: read it once
+                        members = list(members)
                     # check that it does not exist yet (based on members, not ID)
                     if not members or self.has_simplex(members):
                         continue
@@ -534,6 +536,8 @@ class SimplicialComplex(Hypergraph):
             first_edge = next(new_edges)
         except StopIteration:
             return
+        if isinstance(first_edge, Iterator):  # would be exhausted by the format detection
+            first_edge = list(first_edge)
         try:
             first_elem = list(first_edge)[0]
         except TypeError:
@@ -577,6 +581,8 @@ class SimplicialComplex(Hypergraph):
                     _ = iter(members)
                 except TypeError as e:
                     raise XGIError("Invalid ebunch format") from e
+                if isinstance(members, Iterator):  # one-shot: read it once
+                    members = list(members)
 
                 # check that it does not exist yet (based on members, not ID)
                 if not members or self.has_simplex(members):
